@@ -206,13 +206,18 @@ def padding_rule(F, G, rep):
         while e.get("k") == "MethodCall" and e["method"] in ("iter", "iter_mut", "into_iter") and not e.get("args"):
             e = strip(e["recv"])
         return tir.place(e)
-    ok = len(lens) == 1 and len(fors) == 1 and iter_place(fors[0]["iter"]) == "self.game.frames.ports"
+    lens = [n for n in tir.walk(root) if n.get("k") == "Let" and n["pat"].get("k") == "Bind" and strip(n["init"]).get("k") == "MethodCall" and strip(n["init"])["method"] == "len"
+            and tir.place(strip(n["init"])["recv"]) == "self.game.frames"]
+    outer = [f for f in fors if iter_place(f["iter"]) == "self.game.frames.ports"]
+    inner_fors = [f for f in fors if f not in outer]
+    fors = outer + inner_fors
+    ok = len(lens) == 1 and len(outer) == 1 and all(any(x is f for x in tir.walk(outer[0]["body"])) for f in inner_fors)
     rep.ob("padding.all-ports", ok, fn, "loop", "frame_close must iterate every port of frames.ports with the frame count captured once")
     # padding is unconditional: no early return, and the loop is not nested under a condition
     par = safety.parents(root)
     rets = [n for n in tir.walk(root) if n.get("k") == "Ret"]
     nested = False
-    for f in fors:
+    for f in fors[:1]:
         y = f
         while id(y) in par:
             y = par[id(y)]
@@ -232,8 +237,20 @@ def padding_rule(F, G, rep):
             inner = L.strip_try(inner.get("tail") or {}) if inner.get("k") == "Block" else inner
             c = strip(inner.get("cond") or {})
             if c.get("k") == "Binary":
-                targets.append(tir.place(strip(c["l"])["recv"]))
+                t0 = tir.place(strip(c["l"])["recv"])
                 good = good and L.local_name(c["r"]) == bound
+                # `for data in once(&mut p.leader).chain(p.follower.as_mut()) { while data.len() < n { .. } }`: both are padded
+                expanded = None
+                for f2 in inner_fors:
+                    if f2["pat"].get("k") == "Bind" and f2["pat"].get("name") == t0 and any(x is w for x in tir.walk(f2["body"])):
+                        it = strip(f2["iter"])
+                        if it.get("k") == "MethodCall" and it["method"] == "chain" and len(it["args"]) == 1:
+                            first = strip(it["recv"])
+                            if first.get("k") == "Call" and (declared(first) or "").endswith("iter::once") and len(first["args"]) == 1:
+                                expanded = [tir.place(first["args"][0]), tir.place(it["args"][0])]
+                        elif it.get("k") == "Array":
+                            expanded = [tir.place(e) for e in it["elems"]]
+                targets += expanded if expanded else [t0]
         # follower alias: `if let Some(f) = &mut p.follower`
         alias = {}
         for n in tir.walk(fors[0]["body"]):
